@@ -1,7 +1,7 @@
 """Simulator rules: C15, C16, C17, C18, C19 (event plumbing and handler tables only)."""
 from .core import AnchorMissing, strip_sites, walk, show, callee_str, callee_decl, decl_matches, callee_key, is_param_call
-from .paths import stores, calls, field_stores
-from .pat import (num, is_const, unload, last_field, is_field, strip_casts, is_call, has_cmp, cmp_int_true,
+from .paths import stores, calls, field_stores, adt_head
+from .pat import (in_field, num, is_const, unload, last_field, is_field, strip_casts, is_call, has_cmp, cmp_int_true,
                   all_paths, show_facts, field_chain, root_of, contains, base_of, find_calls)
 from .tables import aggregates, unwrap, src_field, src_base
 from .rules_limits import ret_defs, shape, switch_conditions, min_max_on_paths, count_between
@@ -38,7 +38,7 @@ def arms_on(prog, fa, adt_path, pred):
         if t['k'] != 'switch':
             continue
         e = fa.operand(t['d'], (b, len(fa.blocks[b]['s'])))
-        if e[0] == 'discr' and adt_path.split('::')[-1] in e[2] and pred(e[1]):
+        if e[0] == 'discr' and adt_head(e[2]) == adt_path and pred(e[1]):
             arms = {}
             for (v, tgt) in t['ts']:
                 if v in names:
@@ -460,3 +460,295 @@ def check_C16(ctx, rep):
     rep.assumptions += ['which queued packet leaves while blocked (peek selection among queues) is NOT decided',
                         'every CFG path is treated as feasible']
     return 'handler tables for blocking in the simulator, Option-slot typestate, producer inventory, side consistency of the bypass decision'
+
+
+# =================================================================== C17
+
+def slot_index_ok(pe, vec_field, variant):
+    """pe == state.<vec_field>[into_raw(action.machine)] with the machine of the matched TriggerAction variant"""
+    e = unload(pe)
+    x = e
+    while isinstance(x, tuple) and x and x[0] in ('fld', 'var', 'view'):
+        x = x[1]
+    if not (isinstance(x, tuple) and x and x[0] == 'idx' and is_field(x[1], vec_field, 'SimState')):
+        return False
+    ix = x[2]
+    return is_call(ix, 'into_raw') and action_field(ix[2][0], variant, 'machine')
+
+
+def peek_nonstrict(ctx, rep, rid, fname, what):
+    """the eligibility test of a peek loop includes slots due exactly now (t >= current_time, not t > current_time)"""
+    prog, an = ctx.prog, ctx.an
+    fn = sim_fn(prog, fname)
+    fa = an.get(fn)
+    rep.analysed(fn)
+    n = 0
+    for (b, e) in switch_conditions(fa):
+        e2 = strip_sites(e)
+        ops = None
+        if e2[0] == 'call' and any(e2[1].endswith(x) for x in ('PartialOrd::ge', 'PartialOrd::gt', 'PartialOrd::le', 'PartialOrd::lt')):
+            ops = (e2[1].split('::')[-1], e2[2][0], e2[2][1])
+        elif e2[0] == 'bin' and e2[1] in ('Ge', 'Gt', 'Le', 'Lt'):
+            ops = (e2[1].lower(), e2[2], e2[3])
+        if ops is None:
+            continue
+        op, l, r = ops
+        involves_now = lambda x: contains(x, lambda y: y == ('param', 3))
+        is_dur = lambda x: contains(x, lambda y: is_call(y, 'duration_since'))
+        if (involves_now(l) or involves_now(r)) and not (is_dur(l) or is_dur(r)):
+            n += 1
+            # slot time on one side, current_time on the other
+            ok = (op == 'ge' and involves_now(r)) or (op == 'le' and involves_now(l))
+            rep.ob(rid, fn, 'due-now-is-eligible', ok, '%s compares the slot time with current_time using %s' % (fname, op))
+    rep.count_exact(rid, 'eligibility comparisons in ' + fname, n, 2)
+
+
+def check_C17(ctx, rep):
+    prog, an = ctx.prog, ctx.an
+    rep.rule('C17.R1', 'trigger_update: for SendPadding and BlockOutgoing the slot scheduled_action[machine.into_raw()] is overwritten on every path '
+             'through the arm with Some(ScheduledAction{action: clone of that action, time: current_time + timeout + trigger_delay})')
+    rep.rule('C17.R2', 'Cancel table, exhaustive over Timer: Action clears only the action slot, Internal only the internal slot, All both — '
+             'always the slot of the cancelling machine')
+    rep.rule('C17.R3', 'do_scheduled_action: the slot found is cleared on the same path and the search stops there (fires once); the event carries '
+             'the action\'s time; SendPadding -> PaddingSent{machine} with bypass/replace from the action; BlockOutgoing -> BlockingBegin{machine}; '
+             'PaddingSent/BlockingBegin are built nowhere else')
+    rep.rule('C17.R4', 'peek_scheduled_action treats an action due exactly at current_time as eligible (non-strict comparison), both sides')
+    tu = sim_fn(prog, 'trigger_update')
+    fa = an.get(tu)
+    rep.analysed(tu)
+    arms, rest, other, swb = arms_on(prog, fa, 'maybenot::action::TriggerAction', lambda e: True)
+    loops = fa.cfg.loops()
+    hs = [h for h, body in loops.items() if swb in body]
+    if len(hs) != 1:
+        rep.fail_closed('C17.R1', 'trigger_update: action loop')
+        return ''
+    h = hs[0]
+    body = loops[h]
+    sa_stores = field_stores(fa, 'scheduled_action', 'SimState')
+    it_stores = field_stores(fa, 'scheduled_internal_timer', 'SimState')
+    for var in ('SendPadding', 'BlockOutgoing'):
+        if var not in arms:
+            rep.ob('C17.R1', tu, 'arm-present:' + var, False, '')
+            continue
+        mine = [(pe, v, s) for (pe, v, s) in sa_stores if fa.cfg.dominates(arms[var], s[0])]
+        rep.ob('C17.R1', tu, '%s:one-slot-store' % var, len(mine) == 1, 'stores to scheduled_action in the arm: %d' % len(mine))
+        for (pe, v, s) in mine:
+            rep.ob('C17.R1', tu, '%s:slot-of-own-machine' % var, slot_index_ok(pe, 'scheduled_action', var), 'store to %s' % show(pe))
+            ok = v[0] == 'agg' and v[2] == 'Some'
+            if ok:
+                sa_ = dict(v[3])['0']
+                ok = sa_[0] == 'agg' and sa_[1].endswith('ScheduledAction')
+                if ok:
+                    d = dict(sa_[3])
+                    act, tm = d.get('action'), d.get('time')
+                    oka = is_call(act, 'Clone>::clone') or is_call(act, 'Clone::clone')
+                    oka = oka and contains(act, lambda x: is_call(x, 'Iterator>::next') or is_call(x, 'Iterator::next'))
+                    rep.ob('C17.R1', tu, '%s:stores-this-action' % var, oka, 'action = %s' % shape(act))
+                    okt = contains(tm, lambda x: x == ('param', 3)) and contains(tm, lambda x: action_field(x, var, 'timeout')) and contains(tm, lambda x: is_call(x, 'trigger_delay'))
+                    # shape: (current_time + timeout) + trigger_delay, additions only
+                    adds = [x for x in walk(tm) if isinstance(x, tuple) and x and ((x[0] == 'call' and x[1].endswith('::add')) or (x[0] == 'bin' and x[1] == 'Add'))]
+                    subs = [x for x in walk(tm) if isinstance(x, tuple) and x and ((x[0] == 'call' and (x[1].endswith('::sub') or x[1].endswith('::mul'))) or (x[0] == 'bin' and x[1] in ('Sub', 'Mul')))]
+                    rep.ob('C17.R1', tu, '%s:time-is-now-plus-timeout-plus-trigger-delay' % var, okt and len(adds) == 2 and not subs, 'time = %s' % shape(tm))
+            rep.ob('C17.R1', tu, '%s:stores-Some(ScheduledAction)' % var, ok, 'value %s' % shape(v)[:60])
+            # on every path through the arm back to the loop header
+            lo, hi = min_max_on_paths(fa, arms[var], {s[0]}, body, stop_at_header=False)
+            lo2, hi2 = count_between(fa, arms[var], h, {s[0]})
+            rep.ob('C17.R1', tu, '%s:overwritten-on-every-path' % var, (lo2, hi2) == (1, 1), 'stores on arm paths: min %s max %s' % (lo2, hi2))
+    # ---- R2 Cancel
+    if 'Cancel' in arms:
+        pfh = an.paths(tu, history=True, record_stores=lambda pe, val: in_field(pe, 'scheduled_action', 'SimState') or in_field(pe, 'scheduled_internal_timer', 'SimState'), tag='slots', entry=h)
+        timers = prog.variants('maybenot::action::Timer')
+        seen = set()
+        for (x, lab) in fa.cfg.pred[h]:
+            if x not in body:
+                continue
+            for S in pfh.on_edge(x, h):
+                if not any(f[0] == 'variant' and f[2] == 'Cancel' for f in S):
+                    continue
+                tv = [f[2] for f in S if f[0] == 'variant' and f[2] in timers and contains(f[1], lambda y: action_field(y, 'Cancel', 'timer') or (isinstance(y, tuple) and y and y[0] == 'fld' and y[3] == 'timer'))]
+                tn = [f[2] for f in S if f[0] == 'notvariant']
+                names = tv[:1] if tv else [t for t in timers if not any(t in n for n in tn)]
+                st = [f for f in S if f[0] == 'stored']
+                cleared = set()
+                okv = True
+                for f in st:
+                    nm = f[1][1]
+                    cleared.add(nm)
+                    okv = okv and f[3][0] == 'agg' and f[3][2] == 'None' and slot_index_ok(f[2], nm, 'Cancel')
+                for n in names:
+                    seen.add(n)
+                    want = {'Action': {'scheduled_action'}, 'Internal': {'scheduled_internal_timer'}, 'All': {'scheduled_action', 'scheduled_internal_timer'}}.get(n)
+                    rep.ob('C17.R2', tu, 'Cancel:%s' % n, want is not None and cleared == want and okv, 'Timer::%s clears %s' % (n, sorted(cleared)))
+        for t in timers:
+            rep.ob('C17.R2', tu, 'Cancel-variant-covered:' + t, t in seen, '')
+    else:
+        rep.ob('C17.R2', tu, 'arm-present:Cancel', False, '')
+    # writers of the two slot vectors
+    for fn in prog.crate_fns(SIM):
+        if not fn.has_body or fn.derived:
+            continue
+        fa2 = an.get(fn)
+        for (pe, v, site) in field_stores(fa2, 'scheduled_action', 'SimState'):
+            rep.ob('C17.R1', fn, 'writer:scheduled_action', fn.name in ('trigger_update',), 'written in %s' % fn.short())
+    # ---- R3
+    ds = sim_fn(prog, 'do_scheduled_action')
+    da = an.get(ds)
+    rep.analysed(ds)
+    dloops = da.cfg.loops()
+    # clearing stores inside the search loops: store None through the iterated slot, then leave the loop
+    n_clear = 0
+    for (pe, v, site, mp) in stores(da):
+        if v[0] == 'agg' and v[2] == 'None' and v[1].endswith('Option') and contains(pe, lambda x: is_call(x, 'Iterator>::next') or is_call(x, 'Iterator::next')):
+            n_clear += 1
+            nxs = [x[3] for x in walk(pe) if isinstance(x, tuple) and x and x[0] == 'call' and len(x) > 3 and x[3] is not None and (x[1].endswith('Iterator>::next') or x[1].endswith('Iterator::next'))]
+            ok = bool(nxs) and not any(da.cfg.can_reach(y, nb[0]) for nb in nxs for (y, l) in da.cfg.succ[site[0]])
+            rep.ob('C17.R3', ds, 'search-stops-at-first-match', ok, 'after clearing the slot the iterator is not advanced again')
+            pfd = an.paths(ds)
+            st = pfd.at(site[0], site[1])
+            okm, w = all_paths(st, lambda S: has_cmp(S, 'eq', lambda l: is_field(l, 'time', 'ScheduledAction'), lambda r: r == ('param', 3), True))
+            rep.ob('C17.R3', ds, 'cleared-slot-is-the-due-one', okm, 'slot cleared only when its time equals the target')
+    rep.count_exact('C17.R3', 'slot clearing sites in do_scheduled_action', n_clear, 2)
+    for (site, evn, evf, flds, ln) in sim_events(da):
+        if evn == 'PaddingSent':
+            ok = action_field(evf.get('machine'), 'SendPadding', 'machine') and action_field(flds.get('bypass'), 'SendPadding', 'bypass') and action_field(flds.get('replace'), 'SendPadding', 'replace')
+            rep.ob('C17.R3', ds, 'PaddingSent-from-SendPadding', ok, 'machine %s bypass %s replace %s' % (show(evf.get('machine')), show(flds.get('bypass')), show(flds.get('replace'))))
+            rep.ob('C17.R3', ds, 'PaddingSent-at-action-time', is_field(flds.get('time'), 'time', 'ScheduledAction'), 'time = %s' % shape(flds.get('time')))
+            rep.ob('C17.R3', ds, 'PaddingSent-is-padding', is_const(flds.get('contains_padding'), 1), '')
+        elif evn == 'BlockingBegin':
+            ok = action_field(evf.get('machine'), 'BlockOutgoing', 'machine')
+            rep.ob('C17.R3', ds, 'BlockingBegin-from-BlockOutgoing', ok, 'machine %s' % show(evf.get('machine')))
+            tm = flds.get('time')
+            rep.ob('C17.R3', ds, 'BlockingBegin-at-action-time', contains(tm, lambda x: is_field(x, 'time', 'ScheduledAction')), 'time = %s' % shape(tm))
+        else:
+            rep.ob('C17.R3', ds, 'unexpected-event:%s' % evn, False, '')
+    arms2, rest2, other2, swb2 = arms_on(prog, da, 'maybenot::action::TriggerAction', lambda e: True)
+    for var, want in (('SendPadding', 'PaddingSent'), ('BlockOutgoing', 'BlockingBegin')):
+        if var not in arms2:
+            rep.ob('C17.R3', ds, 'arm-present:' + var, False, '')
+            continue
+        region = da.cfg.reachable_from(arms2[var])
+        for (b, k, v) in ret_defs(da):
+            if b in region and da.cfg.dominates(arms2[var], b):
+                ok = v[0] == 'agg' and v[2] == 'Some' and contains(v, lambda x: isinstance(x, tuple) and x and x[0] == 'agg' and x[2] == want)
+                rep.ob('C17.R3', ds, '%s-arm-returns-%s' % (var, want), ok, 'returns %s' % shape(v)[:60])
+    pp = producers(prog, an, 'PaddingSent')
+    rep.ob('C17.R3', '<inventory>', 'PaddingSent-producers', [f.name for f in pp] == ['do_scheduled_action'], '%s' % [f.short() for f in pp])
+    # ---- R4
+    peek_nonstrict(ctx, rep, 'C17.R4', 'peek_scheduled_action', 'action')
+    rep.assumptions += ['that the due action is picked before simulated time passes it is NOT decided beyond eligibility of due-now slots',
+                        'every CFG path is treated as feasible']
+    return 'handler tables for action timers in the simulator: slot overwrite, Cancel table, fire-once lookup, event translation'
+
+
+# =================================================================== C18
+
+def check_C18(ctx, rep):
+    prog, an = ctx.prog, ctx.an
+    rep.rule('C18.R1', 'UpdateTimer arm of trigger_update: the slot store (current_time + duration, for the action\'s machine) and the push of '
+             'TimerBegin{machine} at current_time for that side occur on exactly the same paths')
+    rep.rule('C18.R2', 'do_internal_timer clears the matching slot, stops searching, and builds TimerEnd{machine = from_raw(slot index)} at the '
+             'target; TimerEnd/TimerBegin are built nowhere else')
+    rep.rule('C18.R3', 'the timer is (re)started on every path through the arm on which replace is true, or no timer is running, or the running '
+             'expiry is earlier than current_time + duration')
+    rep.rule('C18.R4', 'peek_scheduled_internal_timer treats a timer due exactly at current_time as eligible (non-strict comparison), both sides')
+    tu = sim_fn(prog, 'trigger_update')
+    fa = an.get(tu)
+    rep.analysed(tu)
+    arms, rest, other, swb = arms_on(prog, fa, 'maybenot::action::TriggerAction', lambda e: True)
+    if 'UpdateTimer' not in arms:
+        rep.fail_closed('C18.R1', 'trigger_update: UpdateTimer arm')
+        return ''
+    loops = fa.cfg.loops()
+    hs = [h for h, body in loops.items() if swb in body]
+    h = hs[0]
+    body = loops[h]
+    rs = lambda pe, val: in_field(pe, 'scheduled_internal_timer', 'SimState')
+    rc = lambda f: callee_str(f).endswith('SimQueue::push_sim')
+    pf = an.paths(tu, history=True, record_stores=rs, record_calls=rc, tag='timer', entry=h)
+    n = 0
+    for (x, lab) in fa.cfg.pred[h]:
+        if x not in body:
+            continue
+        for S in pf.on_edge(x, h):
+            if not any(f[0] == 'variant' and f[2] == 'UpdateTimer' for f in S):
+                continue
+            n += 1
+            st = [f for f in S if f[0] == 'stored']
+            pushed = [f for f in S if f[0] == 'called' and f[1].endswith('push_sim') and fa.cfg.dominates(arms['UpdateTimer'], f[3])]
+            rep.ob('C18.R1', tu, 'store-and-TimerBegin-on-same-paths', bool(st) == bool(pushed), 'slot stored: %s, TimerBegin pushed: %s' % (bool(st), bool(pushed)))
+            # R3
+            replace = any(f[0] == 'btrue' and f[2] is True and action_field(f[1], 'UpdateTimer', 'replace') for f in S)
+            no_timer = any(f[0] == 'variant' and f[2] == 'None' and is_field(f[1], 'scheduled_internal_timer', 'SimState') for f in S)
+
+            def is_new_expiry(e):
+                return contains(e, lambda y: y == ('param', 3)) and contains(e, lambda y: action_field(y, 'UpdateTimer', 'duration'))
+
+            def is_running(e):
+                return contains(e, lambda y: isinstance(y, tuple) and y and y[0] == 'fld' and y[3] == 'scheduled_internal_timer') and not is_new_expiry(e)
+            later = any(f[0] == 'cmp' and f[1] == 'lt' and f[5] is True and is_running(f[2]) and is_new_expiry(f[3]) for f in S) or \
+                any(f[0] == 'cmp' and f[1] == 'le' and f[5] is False and is_new_expiry(f[2]) and is_running(f[3]) for f in S)
+            if replace or no_timer or later:
+                why = 'replace' if replace else ('no timer running' if no_timer else 'later expiry')
+                rep.ob('C18.R3', tu, 'timer-started-when:%s' % why.replace(' ', '-'), bool(st), '' if st else 'path with %s does not store the timer: %s' % (why, show_facts(S)))
+            for f in st:
+                okv = f[3][0] == 'agg' and f[3][2] == 'Some' and is_new_expiry(dict(f[3][3])['0'])
+                rep.ob('C18.R1', tu, 'expiry-is-now-plus-duration', okv, 'stores %s' % shape(f[3]))
+                rep.ob('C18.R1', tu, 'slot-of-own-machine', slot_index_ok(f[2], 'scheduled_internal_timer', 'UpdateTimer'), 'store to %s' % show(f[2]))
+    rep.count_floor('C18.R1', 'paths through the UpdateTimer arm', n, 2)
+    for (site, evn, evf, flds, ln) in sim_events(fa):
+        if evn == 'TimerBegin':
+            okm = action_field(evf.get('machine'), 'UpdateTimer', 'machine')
+            rep.ob('C18.R1', tu, 'TimerBegin-names-own-machine', okm, 'machine %s' % show(evf.get('machine')))
+            tm = flds.get('time')
+            okt = strip_sites(tm) in (('load', ('deref', ('param', 3))), ('param', 3)) or (contains(tm, lambda y: y == ('param', 3)) and not contains(tm, lambda y: isinstance(y, tuple) and y and (y[0] == 'bin' or (y[0] == 'call' and y[1].endswith('::add')))))
+            rep.ob('C18.R1', tu, 'TimerBegin-at-current-time', okt, 'time = %s' % shape(tm))
+            rep.ob('C18.R1', tu, 'TimerBegin-for-own-side', flds.get('client') == ('param', 5), 'client = %s' % show(flds.get('client')))
+        elif evn is not None:
+            rep.ob('C18.R1', tu, 'unexpected-event:' + evn, False, '')
+    tb = producers(prog, an, 'TimerBegin')
+    te = producers(prog, an, 'TimerEnd')
+    rep.ob('C18.R2', '<inventory>', 'TimerBegin-producers', [f.name for f in tb] == ['trigger_update'], '%s' % [f.short() for f in tb])
+    rep.ob('C18.R2', '<inventory>', 'TimerEnd-producers', [f.name for f in te] == ['do_internal_timer'], '%s' % [f.short() for f in te])
+    for fn in prog.crate_fns(SIM):
+        if not fn.has_body or fn.derived:
+            continue
+        fa2 = an.get(fn)
+        for (pe, v, site) in field_stores(fa2, 'scheduled_internal_timer', 'SimState'):
+            rep.ob('C18.R1', fn, 'writer:scheduled_internal_timer', fn.name == 'trigger_update', 'written in %s' % fn.short())
+    # ---- R2
+    di = sim_fn(prog, 'do_internal_timer')
+    da = an.get(di)
+    rep.analysed(di)
+    dloops = da.cfg.loops()
+    n_clear = 0
+    pfd = an.paths(di)
+    for (pe, v, site, mp) in stores(da):
+        if v[0] == 'agg' and v[2] == 'None' and v[1].endswith('Option') and contains(pe, lambda x: is_call(x, 'Iterator>::next') or is_call(x, 'Iterator::next')):
+            n_clear += 1
+            nxs = [x[3] for x in walk(pe) if isinstance(x, tuple) and x and x[0] == 'call' and len(x) > 3 and x[3] is not None and (x[1].endswith('Iterator>::next') or x[1].endswith('Iterator::next'))]
+            ok = bool(nxs) and not any(da.cfg.can_reach(y, nb[0]) for nb in nxs for (y, l) in da.cfg.succ[site[0]])
+            rep.ob('C18.R2', di, 'search-stops-at-first-match', ok, 'after clearing the slot the iterator is not advanced again')
+            st = pfd.at(site[0], site[1])
+            okm, w = all_paths(st, lambda S: any(f[0] == 'cmp' and f[1] == 'eq' and f[5] is True and (f[2] == ('param', 3) or f[3] == ('param', 3)) for f in S))
+            rep.ob('C18.R2', di, 'cleared-slot-is-the-due-one', okm, '')
+    rep.count_exact('C18.R2', 'slot clearing sites in do_internal_timer', n_clear, 2)
+    for (site, evn, evf, flds, ln) in sim_events(da):
+        if evn == 'TimerEnd':
+            m = evf.get('machine')
+            # machine = unwrap(machine local) where the local was set from from_raw(enumerate index)
+            okm = contains(m, lambda y: is_call(y, 'MachineId::from_raw')) or (m[0] == 'call' and m[1].endswith('unwrap'))
+            if m[0] == 'call' and m[1].endswith('unwrap'):
+                src = m[2][0]
+                l = src[1][1] if src[0] == 'load' and src[1][0] == 'local' else None
+                if l is not None:
+                    dv = [da.def_value(l, bb, kk) for (bb, kk, part) in da.defs().get(l, [])]
+                    okm = all((d[0] == 'agg' and d[2] == 'None') or (d[0] == 'agg' and d[2] == 'Some' and is_call(dict(d[3])['0'], 'MachineId::from_raw') and
+                                                                   contains(dict(d[3])['0'], lambda y: is_call(y, 'Iterator>::next') or is_call(y, 'Iterator::next'))) for d in dv) and \
+                        any(d[0] == 'agg' and d[2] == 'Some' for d in dv)
+            rep.ob('C18.R2', di, 'TimerEnd-names-slot-index', okm, 'machine = %s' % shape(m))
+            rep.ob('C18.R2', di, 'TimerEnd-at-target', flds.get('time') == ('param', 3), 'time = %s' % show(flds.get('time')))
+        elif evn is not None:
+            rep.ob('C18.R2', di, 'unexpected-event:' + evn, False, '')
+    peek_nonstrict(ctx, rep, 'C18.R4', 'peek_scheduled_internal_timer', 'timer')
+    rep.assumptions += ['expiry selection order among several due items is NOT decided', 'every CFG path is treated as feasible']
+    return 'handler tables for internal timers in the simulator: start rule, store/TimerBegin pairing, fire-once expiry, eligibility of due-now timers'
